@@ -150,9 +150,6 @@ Section Fold.
 End Fold.
 
 (* ---- values of a key ---- *)
-Definition kvals (k : Z) (all : list (Z * Z)) : list Z :=
-  map snd (filter (fun r => fst r =? k) all).
-
 Lemma kvals_app k a b : kvals k (a ++ b) = kvals k a ++ kvals k b.
 Proof. unfold kvals. rewrite filter_app, map_app. reflexivity. Qed.
 
